@@ -20,9 +20,12 @@ package http2_test
 //     RST_STREAM(PROTOCOL_ERROR) or a server-generated 4xx response.
 
 import (
+	"crypto/tls"
 	"fmt"
 	"io"
+	"log"
 	"net/http"
+	"strings"
 	"strconv"
 	"sync"
 	"testing"
@@ -51,6 +54,7 @@ type c15Case struct {
 	Sched      int       `json:"sched"`
 	ReadBuf    int       `json:"read_buf"`
 	AckFirst   bool      `json:"ack_first"` // client acknowledges the server's SETTINGS
+	MaxHdr     int       `json:"max_hdr"`   // http.Server.MaxHeaderBytes (0 = 1024)
 	Steps      []c15Step `json:"steps"`
 }
 
@@ -59,7 +63,12 @@ var c15BadNames = []string{
 	"upper-case-name", "pseudo-after-regular", "missing-method", "missing-path", "missing-scheme",
 	"dup-method", "dup-path", "connection", "keep-alive", "transfer-encoding", "te-gzip",
 	"proxy-connection", "upgrade", "unknown-pseudo", "status-pseudo", "empty-path",
+	"header-list-too-long", "header-list-too-long-continuation",
 }
+
+// c15BigKind is the first of the two "header list larger than the server's limit"
+// kinds (answered by the server itself with 431); they are built in openStream.
+const c15BigKind = 16
 
 func c15BadFields(kind int, path string) []string {
 	m, s, a, p := []string{":method", "GET"}, []string{":scheme", "https"}, []string{":authority", "dummy.tld"}, []string{":path", path}
@@ -112,6 +121,7 @@ func c15Gen(t *rapid.T) c15Case {
 	c.Sched = rapid.IntRange(0, 3).Draw(t, "sched")
 	c.ReadBuf = rapid.SampledFrom([]int{0, 0, 0, 64, 1024, 16384}).Draw(t, "readbuf")
 	c.AckFirst = rapid.Bool().Draw(t, "ackfirst")
+	c.MaxHdr = rapid.SampledFrom([]int{1024, 1024, 4096}).Draw(t, "maxhdr")
 	// how often the client sends the next frame without reading first: never, 1/6, 2/3
 	ndMode := rapid.SampledFrom([]int{0, 1, 1, 4}).Draw(t, "ndmode")
 	kinds := []string{
@@ -129,7 +139,7 @@ func c15Gen(t *rapid.T) c15Case {
 		case "open":
 			s.End = rapid.Bool().Draw(t, "end")
 		case "bad":
-			s.Op = rapid.IntRange(0, len(c15BadNames)-1).Draw(t, "bad")
+			s.Op = rapid.OneOf(rapid.IntRange(0, len(c15BadNames)-1), rapid.IntRange(0, len(c15BadNames)-1), rapid.IntRange(c15BigKind, c15BigKind+1)).Draw(t, "bad")
 			s.End = rapid.Bool().Draw(t, "end")
 		case "data":
 			s.K = k.Draw(t, "k")
@@ -257,6 +267,39 @@ func (h *c15Handler) ServeHTTP(w http.ResponseWriter, req *http.Request) {
 	}
 }
 
+// c15NewSrv is vpNewSrv (c08_srvsession_test.go) with http.Server.MaxHeaderBytes set, so
+// that a header list over the server's limit is cheap to produce.
+func c15NewSrv(o vpSrvOpts, maxHeaderBytes int, handler http.Handler) *vpSrv {
+	h1 := &http.Server{ErrorLog: log.New(io.Discard, "", 0), MaxHeaderBytes: maxHeaderBytes}
+	h2 := &Server{MaxConcurrentStreams: o.MaxStreams, NewWriteScheduler: vpSched(o.Sched)}
+	ConfigureServer(h1, h2)
+	cli, srv := synctestNetPipe()
+	cli.SetReadDeadline(time.Now())
+	cli.autoWait = true
+	if o.ReadBuf > 0 {
+		cli.SetReadBufferSize(o.ReadBuf)
+	}
+	s := &vpSrv{cli: cli, srv: srv, done: make(chan struct{}), h2: h2}
+	s.enc = hpack.NewEncoder(&s.hbuf)
+	connc := make(chan *ServerConn, 1)
+	h2.TestSetNewConnFunc(func(sc *ServerConn) { connc <- sc })
+	tlsState := tls.ConnectionState{
+		Version:            tls.VersionTLS13,
+		ServerName:         "go.dev",
+		CipherSuite:        tls.TLS_AES_128_GCM_SHA256,
+		NegotiatedProtocol: "h2",
+	}
+	go func() {
+		defer close(s.done)
+		h2.ServeConn(&netConnWithConnectionState{Conn: srv, state: tlsState}, &ServeConnOpts{Handler: handler, BaseConfig: h1})
+	}()
+	s.sc = <-connc
+	s.fr = NewFramer(cli, cli)
+	s.fr.SetMaxReadFrameSize(1<<24 - 1)
+	synctest.Wait()
+	return s
+}
+
 func c15Run(c c15Case, r *vp.Rec) error {
 	nplans := 0
 	for _, st := range c.Steps {
@@ -281,7 +324,11 @@ func c15Run(c c15Case, r *vp.Rec) error {
 			}
 		}
 	}
-	s := vpNewSrv(vpSrvOpts{Sched: c.Sched, MaxStreams: c.MaxStreams, ReadBuf: c.ReadBuf}, h)
+	maxHdr := c.MaxHdr
+	if maxHdr <= 0 {
+		maxHdr = 1024
+	}
+	s := c15NewSrv(vpSrvOpts{Sched: c.Sched, MaxStreams: c.MaxStreams, ReadBuf: c.ReadBuf}, maxHdr, h)
 	s.fr.AllowIllegalWrites = true
 	s.fr.ReadMetaHeaders = hpack.NewDecoder(4096, nil)
 	quitClosed := false
@@ -299,6 +346,7 @@ func c15Run(c c15Case, r *vp.Rec) error {
 	nextID := uint32(1)
 	connDead := false
 	limit := int64(-1) // advertised SETTINGS_MAX_CONCURRENT_STREAMS (-1: none seen)
+	hdrLimit := 0      // advertised SETTINGS_MAX_HEADER_LIST_SIZE
 	var pings []uint64 // outstanding non-ACK PINGs
 	settingsSent, settingsAcked := 0, 0
 	type pendOpen struct {
@@ -348,6 +396,9 @@ func c15Run(c c15Case, r *vp.Rec) error {
 				} else {
 					if v, ok := f.Value(SettingMaxConcurrentStreams); ok {
 						limit = int64(v)
+					}
+					if v, ok := f.Value(SettingMaxHeaderListSize); ok {
+						hdrLimit = int(v)
 					}
 					if c.AckFirst {
 						s.fr.WriteSettingsAck()
@@ -529,9 +580,42 @@ func c15Run(c c15Case, r *vp.Rec) error {
 		pending = append(pending, pendOpen{x, cand})
 		path := "/" + strconv.Itoa(x.plan)
 		var block []byte
-		if bad < 0 {
+		switch {
+		case bad < 0:
 			block = s.reqHeaders("POST", path)
-		} else {
+		case bad >= c15BigKind:
+			// Header list larger than the advertised SETTINGS_MAX_HEADER_LIST_SIZE L, kept
+			// inside what the server still parses (a fragment longer than twice the
+			// remaining budget is a connection error): the pseudo-headers and a first
+			// field of 0.6 L fit, the second field does not.
+			L := hdrLimit
+			if L < 1000 || L > 1<<16 {
+				L = 1344
+			}
+			kv := []string{":method", "POST", ":scheme", "https", ":authority", "dummy.tld", ":path", path}
+			used := 0
+			for i := 0; i+1 < len(kv); i += 2 {
+				used += len(kv[i]) + len(kv[i+1]) + 32
+			}
+			v1 := L * 6 / 10
+			used += len("x-big-a") + v1 + 32
+			kv = append(kv, "x-big-a", strings.Repeat("a", v1))
+			if bad == c15BigKind {
+				kv = append(kv, "x-big-b", strings.Repeat("a", v1))
+				block = s.encode(kv...)
+				break
+			}
+			// second field in a CONTINUATION frame: just larger than what is left
+			rest := L - used
+			if rest < 16 {
+				rest = 16
+			}
+			b1 := s.encode(kv...)
+			b2 := s.encode("x-big-b", strings.Repeat("a", rest+16))
+			s.fr.WriteHeaders(HeadersFrameParam{StreamID: x.id, BlockFragment: b1, EndStream: end, EndHeaders: false})
+			s.fr.WriteContinuation(x.id, true, b2)
+			return
+		default:
 			block = s.encode(c15BadFields(bad, path)...)
 		}
 		s.fr.WriteHeaders(HeadersFrameParam{StreamID: x.id, BlockFragment: block, EndStream: end, EndHeaders: true})
